@@ -24,6 +24,7 @@ func init() {
 }
 
 func checkC12(c *Ctx) {
+	c12TOMLRepresentable(c)
 	// errcheck-style baseline: a newly discarded error in the package is a dropped protocol/validation step
 	c.checkErrorDiscipline("errors.no-new-dropped-error", "internal/encoding", map[string]string{
 		"(*Decoder).Close|io.Closer.Close": "closing the input after decoding (read side)",
@@ -568,4 +569,116 @@ func c12ImportedFilesSanitized(c *Ctx) {
 			"a decoded file is added to the import output without astutil.Sanitize: an import attached to an identifier (TOML date-times: time.Format) is never declared and the written .cue file fails with `reference \"time\" not found`")
 	}
 	c.expect("import.decoded-files-sanitized", 4)
+}
+
+// c12TOMLRepresentable: the TOML encoder decodes the value into Go data and
+// hands it to go-toml's reflection encoder, which does not fail on what TOML
+// cannot express: a nil map value is dropped, []byte is written as a list of
+// integers, *big.Int / *big.Float as strings. C12 asks for an error rather
+// than a silent change, so the library call must lie behind a successful
+// check that walks the value and rejects those kinds.
+func c12TOMLRepresentable(c *Ctx) {
+	const rule = "toml.values-checked-representable"
+	f := c.fnOpt("encoding/toml", "(*Encoder).Encode")
+	if f == nil {
+		c.check(rule, "encoding/toml", 0, false, "anchor: encoding/toml.(*Encoder).Encode not found")
+		return
+	}
+	g := c.graph(f)
+	info := f.Info()
+	lib := keys(g.callNodes("github.com/pelletier/go-toml/v2.(*Encoder).Encode"))
+	if len(lib) == 0 {
+		c.check(rule, f.Name, f.Decl.Pos(), false, "anchor: the encoder no longer calls go-toml's Encode")
+		return
+	}
+	// candidate checkers: package-local functions called with the value that return an error
+	var checker *Fn
+	checks := g.callNodesWhere(func(call *ast.CallExpr) bool {
+		nm := calleeName(info, call)
+		if !strings.HasPrefix(nm, "encoding/toml.") {
+			return false
+		}
+		h := c.fnOpt("encoding/toml", strings.TrimPrefix(nm, "encoding/toml."))
+		if h == nil || !c12RejectsUnrepresentable(h) {
+			return false
+		}
+		checker = h
+		return true
+	}, c12LocalFuncNames(c, "encoding/toml")...)
+	ok := len(checks) > 0
+	det := ": no call to a function that rejects null, bytes and out-of-range numbers and descends into lists and structs"
+	if ok {
+		bad, st := g.onlyAfterSuccess(checks, lib)
+		ok = len(bad) == 0
+		det = ": " + maskStr(st)
+		if ok {
+			det = " (checker: " + checker.Name + ")"
+		}
+	}
+	c.check(rule, f.Name, g.pos(lib[0]), ok,
+		"go-toml's reflection encoder may be called only after a successful check that the value holds nothing TOML cannot represent (null is dropped, bytes become a list of integers, numbers beyond 64 bits become strings — silent changes where C12 demands an error)"+det)
+}
+
+// c12RejectsUnrepresentable: h switches on the value's kind, returns an error
+// in the null and bytes cases, tests integers, and recurses for lists and structs.
+func c12RejectsUnrepresentable(h *Fn) bool {
+	info := h.Info()
+	need := map[string]bool{"NullKind": false, "BytesKind": false, "IntKind": false, "ListKind": false, "StructKind": false}
+	ast.Inspect(h.Body, func(x ast.Node) bool {
+		cc, ok := x.(*ast.CaseClause)
+		if !ok {
+			return true
+		}
+		for _, e := range cc.List {
+			sel, ok := ast.Unparen(e).(*ast.SelectorExpr)
+			if !ok {
+				continue
+			}
+			name := sel.Sel.Name
+			if _, want := need[name]; !want {
+				continue
+			}
+			switch name {
+			case "NullKind", "BytesKind":
+				// the clause returns a non-nil error unconditionally
+				for _, st := range cc.Body {
+					if rs, ok := st.(*ast.ReturnStmt); ok && len(rs.Results) == 1 && !isNilIdent(rs.Results[0]) {
+						need[name] = true
+					}
+				}
+			case "IntKind":
+				ast.Inspect(cc, func(y ast.Node) bool {
+					if call, ok := y.(*ast.CallExpr); ok && strings.HasSuffix(calleeName(info, call), "cue.Value.Int64") {
+						need[name] = true
+					}
+					return true
+				})
+			default:
+				ast.Inspect(cc, func(y ast.Node) bool {
+					if call, ok := y.(*ast.CallExpr); ok && calleeName(info, call) == h.Name {
+						need[name] = true
+					}
+					return true
+				})
+			}
+		}
+		return true
+	})
+	for _, v := range need {
+		if !v {
+			return false
+		}
+	}
+	return true
+}
+
+
+func c12LocalFuncNames(c *Ctx, pkgRel string) []string {
+	var out []string
+	for _, f := range c.funcs(c.pkg(pkgRel)) {
+		if f.Decl != nil {
+			out = append(out, f.Name)
+		}
+	}
+	return out
 }
